@@ -6,7 +6,22 @@
    runs out.  Every theorem comes in two forms:
      - for ALL specs: the error is a spec error or RecursionError;
      - for specs whose nesting depth [vdepth] is below the fuel ([spec_fuel] = 40): the error is a
-       spec error (so RecursionError only arises from fuel exhaustion). *)
+       spec error (so RecursionError only arises from fuel exhaustion).
+
+   Main theorems (end of file; all for arbitrary [pyval]s, no well-formedness assumed, no extra
+   hypotheses, nothing left unproved):
+     C19_cond_no_internal / C19_cond_no_recursion              cond1_from_spec
+     C19_path_no_internal / C19_path_no_recursion              path_from_spec
+     C19_part_no_internal / C19_part_no_recursion              part_spec_parse
+     C19_part_entry_no_internal / C19_part_entry_no_recursion  dict_of_val ; part_spec_parse
+     C19_part_specs_no_internal / C19_part_specs_no_recursion  from_part_specs
+     C19_rule_no_internal / C19_rule_no_recursion / C19_rule_keyerror   rule_from_spec
+
+   The generic development (sections) is over arbitrary tables with five boolean table facts
+   ([tables_ok], three [has_ctor], [forallb mod_okb]); they are discharged for the generated tables
+   by computation ([T_tables_ok] ... [X_suffixes_ok]).  The internal-error branches of the model
+   shown unreachable from the parsers: [Err OtherExc] in [apply_ctor], [Err AttributeError] in
+   [build_leaf] and [apply_mod], [Err KeyError] inside [norm_doc]. *)
 From Coq Require Import ZArith NArith List Bool String Ascii Lia.
 From Valida Require Import Py Lang Defs Cond Dsl Path Cast Str SpecDefs RuleDefs Spec SpecIO Inst RunSpec.
 From Valida.Proofs Require Import PyFacts.
@@ -1442,14 +1457,14 @@ Theorem C19_part_no_internal : forall d e,
   part_spec_parse T X d = Err e -> spec_error e \/ e = RecursionError.
 Proof.
   intros d e H.
-  exact (part_spec_parse_err_all T X T_tables_ok T_key_eq T_index_eq T_value_eq d e H).
+  exact (part_spec_parse_err_all T X T_tables_ok T_key_eq T_index_eq T_value_eq X_suffixes_ok d e H).
 Qed.
 
 Theorem C19_part_no_recursion : forall d e,
   vdepth (VDict d) < spec_fuel -> part_spec_parse T X d = Err e -> spec_error e.
 Proof.
   intros d e Hd H.
-  exact (part_spec_parse_err_depth T X T_tables_ok T_key_eq T_index_eq T_value_eq d e Hd H).
+  exact (part_spec_parse_err_depth T X T_tables_ok T_key_eq T_index_eq T_value_eq X_suffixes_ok d e Hd H).
 Qed.
 
 (* ... behind dict(spec), as the harness calls it *)
@@ -1457,7 +1472,7 @@ Theorem C19_part_entry_no_internal : forall spec e,
   (let* d := dict_of_val spec in part_spec_parse T X d) = Err e -> spec_error e \/ e = RecursionError.
 Proof.
   intros spec e H.
-  exact (part_entry_err_all T X T_tables_ok T_key_eq T_index_eq T_value_eq spec e H).
+  exact (part_entry_err_all T X T_tables_ok T_key_eq T_index_eq T_value_eq X_suffixes_ok spec e H).
 Qed.
 
 Theorem C19_part_entry_no_recursion : forall spec e,
@@ -1465,7 +1480,7 @@ Theorem C19_part_entry_no_recursion : forall spec e,
   (let* d := dict_of_val spec in part_spec_parse T X d) = Err e -> spec_error e.
 Proof.
   intros spec e Hd H.
-  exact (part_entry_err_depth T X T_tables_ok T_key_eq T_index_eq T_value_eq spec e Hd H).
+  exact (part_entry_err_depth T X T_tables_ok T_key_eq T_index_eq T_value_eq X_suffixes_ok spec e Hd H).
 Qed.
 
 (* 4. DataPath.from_part_specs *)
@@ -1473,14 +1488,14 @@ Theorem C19_part_specs_no_internal : forall l e,
   from_part_specs T X l = Err e -> spec_error e \/ e = RecursionError.
 Proof.
   intros l e H.
-  exact (from_part_specs_err_all T X T_tables_ok T_key_eq T_index_eq T_value_eq l e H).
+  exact (from_part_specs_err_all T X T_tables_ok T_key_eq T_index_eq T_value_eq X_suffixes_ok l e H).
 Qed.
 
 Theorem C19_part_specs_no_recursion : forall l e,
   vdepth (VList l) <= spec_fuel -> from_part_specs T X l = Err e -> spec_error e.
 Proof.
   intros l e Hd H. rewrite vdepth_list in Hd.
-  exact (from_part_specs_err_depth T X T_tables_ok T_key_eq T_index_eq T_value_eq l e Hd H).
+  exact (from_part_specs_err_depth T X T_tables_ok T_key_eq T_index_eq T_value_eq X_suffixes_ok l e Hd H).
 Qed.
 
 (* 5. Rule.from_spec *)
